@@ -1,1 +1,289 @@
-// cfg(kani) child module of src/.../aggregate_execution.rs (see DESIGN.md §1.1)
+// cfg(kani) child module of src/execution/aggregate_execution.rs: the per-group fold kernels
+// (GroupAggregator::default / update / update_value / is_null) under the driver protocol of
+// update_aggregate + execute_result.  C04 (value by definition), C15 (order-insensitive), C09 (total).
+#![allow(dead_code, unused_imports, unused_macros)]
+
+use std::mem::ManuallyDrop;
+
+use crate::model::{Aggregate, ExpressionTree, Float, Value, ValueType};
+use crate::verif_kani::common::*;
+
+use super::GroupAggregator;
+
+/// What the engine shows for one group after feeding `vals` in order (protocol copied from
+/// AggregateExecutionEngine::update_aggregate and execute_result; it is an assumption of the check):
+///  - the aggregator is created lazily from the first value that arrives (NULL or not),
+///  - update() only for non-NULL values, its Some(result) overwrites the group's cell,
+///  - a NULL value sets the cell to NULL only while the aggregator `is_null()`,
+///  - before a table is shown, update_value()'s Some(result) overwrites the cell.
+/// None = the group has no cell for this aggregate; Err = the engine reports an error.
+fn fold3(agg: &Aggregate, v0: &Value, v1: &Value, v2: &Value, n: usize) -> Result<Option<MD<Value>>, ()> {
+    let mut aggregator = ManuallyDrop::new(GroupAggregator::default(agg, v0));
+    let mut cell: Option<MD<Value>> = None;
+    macro_rules! step {
+        ($v:expr) => {
+            if $v.is_not_null() {
+                let r = ManuallyDrop::new(aggregator.update(ManuallyDrop::into_inner(ManuallyDrop::new($v.clone()))));
+                match &*r {
+                    Ok(Some(value)) => { cell = Some(ManuallyDrop::new(value.clone())); }
+                    Ok(None) => {}
+                    Err(_) => { return Err(()); }
+                }
+            } else if aggregator.is_null() {
+                cell = Some(ManuallyDrop::new(Value::Null));
+            }
+        };
+    }
+    if n > 0 { step!(v0); }
+    if n > 1 { step!(v1); }
+    if n > 2 { step!(v2); }
+    let r = ManuallyDrop::new(aggregator.update_value());
+    match &*r {
+        Ok(Some(value)) => { cell = Some(ManuallyDrop::new(value.clone())); }
+        Ok(None) => {}
+        Err(_) => { return Err(()); }
+    }
+    Ok(cell)
+}
+
+fn pick<'a>(k: u8, a: &'a Value, b: &'a Value, c: &'a Value) -> (&'a Value, &'a Value, &'a Value) {
+    match k {
+        0 => (a, b, c),
+        1 => (a, c, b),
+        2 => (b, a, c),
+        3 => (b, c, a),
+        4 => (c, a, b),
+        _ => (c, b, a),
+    }
+}
+
+fn same_cell(x: &Result<Option<MD<Value>>, ()>, y: &Result<Option<MD<Value>>, ()>) -> bool {
+    match (x, y) {
+        (Err(_), Err(_)) => true,
+        (Ok(None), Ok(None)) => true,
+        (Ok(Some(a)), Ok(Some(b))) => **a == **b,
+        _ => false,
+    }
+}
+
+fn int_or_null(is_null: bool, x: i64) -> MD<Value> {
+    ManuallyDrop::new(if is_null { Value::Null } else { Value::Int(x) })
+}
+
+fn float_or_null(is_null: bool, x: i64) -> MD<Value> {
+    ManuallyDrop::new(if is_null { Value::Null } else { Value::Float(Float(x as f64)) })
+}
+
+fn bool_or_null(is_null: bool, x: bool) -> MD<Value> {
+    ManuallyDrop::new(if is_null { Value::Null } else { Value::Bool(x) })
+}
+
+fn cell_int(c: &Result<Option<MD<Value>>, ()>) -> Option<i64> {
+    if let Ok(Some(v)) = c { if let Value::Int(x) = &**v { return Some(*x); } }
+    None
+}
+fn cell_float(c: &Result<Option<MD<Value>>, ()>) -> Option<f64> {
+    if let Ok(Some(v)) = c { if let Value::Float(x) = &**v { return Some(x.0); } }
+    None
+}
+fn cell_bool(c: &Result<Option<MD<Value>>, ()>) -> Option<bool> {
+    if let Ok(Some(v)) = c { if let Value::Bool(x) = &**v { return Some(*x); } }
+    None
+}
+fn cell_is_null(c: &Result<Option<MD<Value>>, ()>) -> bool {
+    if let Ok(Some(v)) = c { return v.is_null(); }
+    false
+}
+
+const SMALL: i64 = 1 << 20;
+
+/// Numeric folds over three values, each NULL or a small integer (|x| <= 2^20, so every sum and square
+/// is exact in i64 and in f64): value by definition (C04) and the same for every arrival order (C15).
+macro_rules! numeric_fold_harness {
+    ($name:ident, $agg:expr, $is_float:expr, $kind:expr) => {
+        #[kani::proof]
+        #[kani::unwind(5)]
+        #[kani::stub(alloc::fmt::format, crate::verif_kani::common::stub_format)]
+        #[kani::stub(chrono::Local::now, crate::verif_kani::common::stub_local_now)]
+        #[kani::stub(<chrono::Local as chrono::TimeZone>::offset_from_local_datetime, crate::verif_kani::common::stub_offset_from_local_datetime)]
+        #[kani::stub(<chrono::Local as chrono::TimeZone>::offset_from_utc_datetime, crate::verif_kani::common::stub_offset_from_utc_datetime)]
+        fn $name() {
+            let n0: bool = kani::any(); let n1: bool = kani::any(); let n2: bool = kani::any();
+            let x0: i64 = kani::any(); let x1: i64 = kani::any(); let x2: i64 = kani::any();
+            kani::assume(x0 >= -SMALL && x0 <= SMALL && x1 >= -SMALL && x1 <= SMALL && x2 >= -SMALL && x2 <= SMALL);
+            let (a, b, c) = if $is_float {
+                (float_or_null(n0, x0), float_or_null(n1, x1), float_or_null(n2, x2))
+            } else {
+                (int_or_null(n0, x0), int_or_null(n1, x1), int_or_null(n2, x2))
+            };
+            let agg = ManuallyDrop::new($agg);
+            let base = fold3(&agg, &a, &b, &c, 3);
+
+            // --- C04: value by definition over the non-NULL values
+            let cnt = (!n0) as i64 + (!n1) as i64 + (!n2) as i64;
+            let sum = (if n0 { 0 } else { x0 }) + (if n1 { 0 } else { x1 }) + (if n2 { 0 } else { x2 });
+            let ssq = (if n0 { 0 } else { x0 * x0 }) + (if n1 { 0 } else { x1 * x1 }) + (if n2 { 0 } else { x2 * x2 });
+            if cnt == 0 {
+                assert!(cell_is_null(&base), "C04 aggregate over no non-NULL value is NULL");
+            } else if $kind == 0 {
+                // SUM
+                if $is_float { assert!(cell_float(&base) == Some(sum as f64), "C04 SUM is the sum of the non-NULL values"); }
+                else { assert!(cell_int(&base) == Some(sum), "C04 SUM is the sum of the non-NULL values"); }
+            } else if $kind == 1 {
+                // AVG: REAL exactly sum/count; INT within one of the mean (integer average)
+                if $is_float { assert!(cell_float(&base) == Some(sum as f64 / cnt as f64), "C04 AVG is sum / count of the non-NULL values"); }
+                else {
+                    let avg = cell_int(&base);
+                    assert!(avg.is_some(), "C04 AVG of INT values is an INT");
+                    let d = sum - avg.unwrap() * cnt;
+                    assert!(d > -cnt && d < cnt, "C04 AVG is sum / count of the non-NULL values");
+                }
+            } else {
+                // VARIANCE = (sum of squares - sum^2 / n) / n
+                let nf = cnt as f64;
+                let expected = ((ssq as f64) - ((sum as f64) * (sum as f64)) / nf) / nf;
+                assert!(cell_float(&base) == Some(expected), "C04 VARIANCE is (sum x^2 - (sum x)^2 / n) / n over the non-NULL values");
+            }
+
+            // --- C15: any arrival order gives the same cell
+            let k: u8 = kani::any();
+            kani::assume(k < 6);
+            let (p, q, r) = pick(k, &a, &b, &c);
+            let permuted = fold3(&agg, p, q, r, 3);
+            assert!(same_cell(&base, &permuted), "C15 aggregate is the same for every order of the group's rows");
+            kani::cover!(cnt == 3 && k == 5, "fold: all non-NULL, reversed order reachable");
+            kani::cover!(n0 && !n1, "fold: NULL arrives first reachable");
+        }
+    };
+}
+numeric_fold_harness!(c04_fold_sum_int, Aggregate::Sum(ExpressionTree::Wildcard), false, 0);
+numeric_fold_harness!(c04_fold_sum_float, Aggregate::Sum(ExpressionTree::Wildcard), true, 0);
+numeric_fold_harness!(c04_fold_avg_int, Aggregate::Average(ExpressionTree::Wildcard), false, 1);
+numeric_fold_harness!(c04_fold_avg_float, Aggregate::Average(ExpressionTree::Wildcard), true, 1);
+numeric_fold_harness!(c04_fold_variance_int, Aggregate::StandardDeviation(ExpressionTree::Wildcard, true), false, 2);
+numeric_fold_harness!(c04_fold_variance_float, Aggregate::StandardDeviation(ExpressionTree::Wildcard, true), true, 2);
+
+macro_rules! bool_fold_harness {
+    ($name:ident, $agg:expr, $is_and:expr) => {
+        #[kani::proof]
+        #[kani::unwind(5)]
+        #[kani::stub(alloc::fmt::format, crate::verif_kani::common::stub_format)]
+        #[kani::stub(chrono::Local::now, crate::verif_kani::common::stub_local_now)]
+        #[kani::stub(<chrono::Local as chrono::TimeZone>::offset_from_local_datetime, crate::verif_kani::common::stub_offset_from_local_datetime)]
+        #[kani::stub(<chrono::Local as chrono::TimeZone>::offset_from_utc_datetime, crate::verif_kani::common::stub_offset_from_utc_datetime)]
+        fn $name() {
+            let n0: bool = kani::any(); let n1: bool = kani::any(); let n2: bool = kani::any();
+            let x0: bool = kani::any(); let x1: bool = kani::any(); let x2: bool = kani::any();
+            let (a, b, c) = (bool_or_null(n0, x0), bool_or_null(n1, x1), bool_or_null(n2, x2));
+            let agg = ManuallyDrop::new($agg);
+            let base = fold3(&agg, &a, &b, &c, 3);
+            let cnt = (!n0) as i64 + (!n1) as i64 + (!n2) as i64;
+            if cnt == 0 {
+                assert!(cell_is_null(&base), "C04 aggregate over no non-NULL value is NULL");
+            } else {
+                let expected = if $is_and { (n0 || x0) && (n1 || x1) && (n2 || x2) } else { (!n0 && x0) || (!n1 && x1) || (!n2 && x2) };
+                assert!(cell_bool(&base) == Some(expected), "C04 BOOL_AND / BOOL_OR fold the non-NULL values");
+            }
+            let k: u8 = kani::any();
+            kani::assume(k < 6);
+            let (p, q, r) = pick(k, &a, &b, &c);
+            let permuted = fold3(&agg, p, q, r, 3);
+            assert!(same_cell(&base, &permuted), "C15 aggregate is the same for every order of the group's rows");
+            kani::cover!(cnt == 3 && k == 5, "fold: all non-NULL, reversed order reachable");
+        }
+    };
+}
+bool_fold_harness!(c04_fold_bool_and, Aggregate::BoolAnd(ExpressionTree::Wildcard), true);
+bool_fold_harness!(c04_fold_bool_or, Aggregate::BoolOr(ExpressionTree::Wildcard), false);
+
+/// Full-range INT sums: the running sum / square must not panic or wrap (C09); an overflow has to
+/// surface as an error (C04: "computed from exactly the rows of that group", never a wrapped number).
+macro_rules! overflow_fold_harness {
+    ($name:ident, $agg:expr) => {
+        #[kani::proof]
+        #[kani::unwind(5)]
+        #[kani::stub(alloc::fmt::format, crate::verif_kani::common::stub_format)]
+        #[kani::stub(chrono::Local::now, crate::verif_kani::common::stub_local_now)]
+        #[kani::stub(<chrono::Local as chrono::TimeZone>::offset_from_local_datetime, crate::verif_kani::common::stub_offset_from_local_datetime)]
+        #[kani::stub(<chrono::Local as chrono::TimeZone>::offset_from_utc_datetime, crate::verif_kani::common::stub_offset_from_utc_datetime)]
+        fn $name() {
+            let x0: i64 = kani::any();
+            let x1: i64 = kani::any();
+            let a = ManuallyDrop::new(Value::Int(x0));
+            let b = ManuallyDrop::new(Value::Int(x1));
+            let agg = ManuallyDrop::new($agg);
+            let r = fold3(&agg, &a, &b, &a, 2);
+            if x0.checked_add(x1).is_none() {
+                assert!(r.is_err(), "C09 an overflowing running sum is reported as an error");
+            }
+            kani::cover!(x0.checked_add(x1).is_none(), "fold overflow: overflow reachable");
+        }
+    };
+}
+overflow_fold_harness!(c09_fold_sum_int_overflow, Aggregate::Sum(ExpressionTree::Wildcard));
+overflow_fold_harness!(c09_fold_avg_int_overflow, Aggregate::Average(ExpressionTree::Wildcard));
+
+/// PERCENTILE(p) over 1..3 INT values: for every p in [0, 1] the cell is an element of the group,
+/// namely sorted[floor(p * n)] (the last element for p = 1.0), for every arrival order.
+macro_rules! percentile_harness {
+    ($name:ident, $n:expr) => {
+        #[kani::proof]
+        #[kani::unwind(6)]
+        #[kani::stub(alloc::fmt::format, crate::verif_kani::common::stub_format)]
+        #[kani::stub(chrono::Local::now, crate::verif_kani::common::stub_local_now)]
+        #[kani::stub(<chrono::Local as chrono::TimeZone>::offset_from_local_datetime, crate::verif_kani::common::stub_offset_from_local_datetime)]
+        #[kani::stub(<chrono::Local as chrono::TimeZone>::offset_from_utc_datetime, crate::verif_kani::common::stub_offset_from_utc_datetime)]
+        fn $name() {
+            let p: f64 = kani::any();
+            kani::assume(p >= 0.0 && p <= 1.0);
+            let x0: i64 = kani::any(); let x1: i64 = kani::any(); let x2: i64 = kani::any();
+            let a = ManuallyDrop::new(Value::Int(x0));
+            let b = ManuallyDrop::new(Value::Int(x1));
+            let c = ManuallyDrop::new(Value::Int(x2));
+            let agg = ManuallyDrop::new(Aggregate::Percentile(ExpressionTree::Wildcard, Float(p)));
+            let base = fold3(&agg, &a, &b, &c, $n);
+            // reference: sort the first n values
+            let (mut s0, mut s1, mut s2) = (x0, if $n > 1 { x1 } else { i64::MAX }, if $n > 2 { x2 } else { i64::MAX });
+            if s0 > s1 { std::mem::swap(&mut s0, &mut s1); }
+            if s1 > s2 { std::mem::swap(&mut s1, &mut s2); }
+            if s0 > s1 { std::mem::swap(&mut s0, &mut s1); }
+            let mut idx = (p * ($n as f64)) as usize;
+            if idx >= $n { idx = $n - 1; }
+            let expected = if idx == 0 { s0 } else if idx == 1 { s1 } else { s2 };
+            assert!(cell_int(&base) == Some(expected), "C04 PERCENTILE(p) is the element at floor(p*n) of the sorted non-NULL values (the largest for p = 1)");
+            if $n == 3 {
+                let k: u8 = kani::any();
+                kani::assume(k < 6);
+                let (u, v, w) = pick(k, &a, &b, &c);
+                let permuted = fold3(&agg, u, v, w, 3);
+                assert!(same_cell(&base, &permuted), "C15 aggregate is the same for every order of the group's rows");
+            }
+            kani::cover!(p == 1.0, "percentile: p = 1 reachable");
+            kani::cover!(p == 0.5, "percentile: p = 0.5 reachable");
+        }
+    };
+}
+percentile_harness!(c04_fold_percentile_n1, 1);
+percentile_harness!(c04_fold_percentile_n2, 2);
+percentile_harness!(c04_fold_percentile_n3, 3);
+
+/// PERCENTILE over a group whose argument is NULL on every row: NULL, not a missing cell.
+#[kani::proof]
+#[kani::unwind(5)]
+#[kani::stub(alloc::fmt::format, crate::verif_kani::common::stub_format)]
+#[kani::stub(chrono::Local::now, crate::verif_kani::common::stub_local_now)]
+#[kani::stub(<chrono::Local as chrono::TimeZone>::offset_from_local_datetime, crate::verif_kani::common::stub_offset_from_local_datetime)]
+#[kani::stub(<chrono::Local as chrono::TimeZone>::offset_from_utc_datetime, crate::verif_kani::common::stub_offset_from_utc_datetime)]
+fn c04_fold_percentile_all_null() {
+    let p: f64 = kani::any();
+    kani::assume(p >= 0.0 && p <= 1.0);
+    let a = ManuallyDrop::new(Value::Null);
+    let agg = ManuallyDrop::new(Aggregate::Percentile(ExpressionTree::Wildcard, Float(p)));
+    let base = fold3(&agg, &a, &a, &a, 2);
+    assert!(cell_is_null(&base), "C04 aggregate over no non-NULL value is NULL");
+    kani::cover!(true, "percentile all null: end reachable");
+}
+
+#[cfg(test)]
+#[path = "/verif/.cache/playback/aggregate_execution.rs"]
+mod playback_gen;
